@@ -76,6 +76,10 @@ def cases(desc):
         if x < 0.12:
             r.choice(feats).setdefault("attrs", []).append({"name": "unit cost", "value": 3})
             tags.append("attr:name-needs-quote")
+        if j % 3 == 0 and spec.get("ctcs"):
+            # identifiers that contain operator words: plain ones (SENSOR, BRAND...) and ones with non-ASCII letters
+            inject.rename_to_opwords(spec, r, inject.OPWORD_NAMES + (inject.OPWORD_NAMES_NONASCII if j % 2 == 0 else []))
+            tags.append("name:contains-operator-word")
         yield "random", spec, tags
 
 
@@ -141,6 +145,13 @@ def structural(acc, spec, source):
         acc.fail(cls, "no-exception", "clafer", [], f"raises:{type(e).__name__}", str(e)[:200], {"source": source}, key)
         return
     acc.disagreements_checked += 1
+    want_attrs = sorted((f["name"], a["name"]) for f in S.features(spec["root"]) for a in f.get("attrs", []))
+    got_attrs = sorted((f["name"], a) for f in S.features(got["root"]) for a in f.get("attr_names", []))
+    if want_attrs != got_attrs:
+        acc.fail(cls, "names-every-attribute", "clafer", [], "attributes-differ",
+                 f"attributes by owner: export {got_attrs[:4]}... model {want_attrs[:4]}... first difference "
+                 f"{S.first_diff(want_attrs, got_attrs)}"[:300], {"source": source, "spec": spec if len(S.feature_names(spec)) <= 60 else None, "tags": []}, key)
+        return
     if S.canon_tree(got["root"], ()) != S.canon_tree(spec["root"], ()):
         acc.fail(cls, "same-tree", "clafer", [], "tree-differs",
                  str(S.first_diff(S.canon_tree(spec["root"], ()), S.canon_tree(got["root"], ())))[:300],
@@ -225,7 +236,7 @@ def run_shard(desc, acc):
                                    group_kinds=("alternative", "or", "mutex", "cardinality"), multi_rel=False)
             if in_fragment(spec):
                 structural(acc, spec, "large-random")
-    for j, depth in enumerate((12, 22, 30, 45)):
+    for j, depth in enumerate((12, 22, 30, 45, 66, 70, 100, 131)):
         if j % n == i:
             root = cur = {"name": "D0", "rels": []}
             for q in range(1, depth):
@@ -234,7 +245,12 @@ def run_shard(desc, acc):
                     cur["rels"].append({"min": 1, "max": 2, "children": [nxt, {"name": f"E{q}", "rels": []}]})
                 else:
                     cur["rels"].append({"min": q % 2, "max": 1, "children": [nxt]})
+                if q % 5 == 0 or q >= depth - 3:
+                    # attributes all the way down (their lines are indented one level deeper than their owner)
+                    nxt["attrs"] = [{"name": "power", "value": q}] + ([{"name": "label", "value": "x"}] if q % 2 else [])
                 cur = nxt
+            cur["rels"].append({"min": 0, "max": 1, "children": [{"name": "Leaf1", "rels": []}]})
+            cur["rels"].append({"min": 0, "max": 1, "children": [{"name": "Leaf2", "rels": [], "attrs": [{"name": "power", "value": 1}]}]})
             structural(acc, {"root": root, "ctcs": []}, f"deep-chain-{depth}")
     for j in range(32):
         if j % n == i:
